@@ -86,6 +86,13 @@ func (p *TriggerPool) maxIterationsReached() {
 func (p *TriggerPool) sendJobsForExecution(numJobs int) {
 	p.jobsAvailableCond.L.Lock()
 
+	// A tick that lost the race with stop() must not leave jobs behind: the workers are
+	// gone, so nobody would ever start them or report them as dropped.
+	if numJobs > 0 && !p.running() {
+		p.jobsAvailableCond.L.Unlock()
+		return
+	}
+
 	jobsDiscarded := p.jobsToExecute.set(numJobs)
 	p.jobsAvailableCond.Broadcast()
 
